@@ -19,9 +19,13 @@ FREE = object()
 class Policy(object):
     """Default random value policy (seeded)."""
 
-    def __init__(self, rng, widen=True, max_count=3, bitmap_cap=6):
+    def __init__(self, rng, widen=True, max_count=3, bitmap_cap=6, narrow_strings=0.0):
         self.rng = rng
         self.widen = widen
+        # probability of storing a compressed character column whose values differ with increments NARROWER than the field
+        # (legal: base of the field's octets, 6-bit octet count k < width, k octets per subset - sample pgps_110 does it; the
+        # values are then those k octets).  Off by default: an encoder need not reproduce that layout.
+        self.narrow_strings = narrow_strings
         self.max_count = max_count
         self.bitmap_cap = bitmap_cap
 
@@ -221,6 +225,17 @@ class PWalker(Walker):
             self.out.raw(vals[0])
             self.out.u(0, 6)
             self.feat['cs-alleq'] += 1
+        elif nbytes >= 2 and self.policy.narrow_strings and self.policy.rng.random() < self.policy.narrow_strings \
+                and len(set(v[:nbytes - 1] for v in vals)) > 1:
+            k = self.policy.rng.randint(1, nbytes - 1)
+            while len(set(v[:k] for v in vals)) == 1:
+                k += 1
+            vals = [v[:k] for v in vals]
+            self.out.raw(b'\0' * nbytes)
+            self.out.u(k, 6)
+            for v in vals:
+                self.out.raw(v)
+            self.feat['cs-narrow'] += 1
         else:
             self.out.raw(b'\0' * nbytes)
             self.out.u(nbytes, 6)
